@@ -276,12 +276,12 @@ def table(spec: dict, which: str = 'a') -> dict:
 
 
 # ---- history-shaped cases: one BIOGEME object through a sequence of public calls -----------------
-HISTORY_OPS = ['simulate', 'loglike', 'estimate', 'estimate_bootstrap', 'quick_estimate']
+HISTORY_OPS = ['simulate', 'loglike', 'scaled', 'estimate', 'estimate_bootstrap', 'quick_estimate']
 DIRECTED_HISTORIES = [
     ['simulate', 'estimate_bootstrap', 'simulate', 'simulate'],
     ['estimate_bootstrap', 'loglike', 'simulate', 'loglike'],
     ['estimate_bootstrap', 'estimate', 'simulate'],
-    ['loglike', 'estimate', 'simulate', 'estimate_bootstrap', 'quick_estimate', 'simulate'],
+    ['loglike', 'estimate', 'scaled', 'simulate', 'estimate_bootstrap', 'scaled', 'quick_estimate', 'simulate'],
 ]
 
 
